@@ -72,6 +72,15 @@ def _common_models(smt, st):
         f.wants_env = True
         return f
 
+    def m_clamp(ex, v, env):
+        # the intersection with the ids of the given namespace (what the function computes: Kani harness bounds_clamp_*)
+        ns = _deep(ex, env, v[1])
+        if ns != "MYNS":
+            st.setdefault("foreign_ns", []).append(("clamp_to_namespace", ns))
+        smt.fun("C_clamp", 1)
+        return "(C_clamp %s)" % v[0]
+    m_clamp.wants_env = True
+
     def m_with_bounds(ex, v, env):
         t = v[0]
         st.setdefault("tables", []).append(t)
@@ -105,6 +114,7 @@ def _common_models(smt, st):
         r"^RecordsBounds::namespace$": m_ns_bounds("namespace"),
         r"^RecordsBounds::from_start$": m_ns_bounds("from_start"),
         r"^RecordsBounds::to_end$": m_ns_bounds("to_end"),
+        r"^RecordsBounds::clamp_to_namespace$": m_clamp,
         r"^RecordsRange::<'_>::with_bounds::<": m_with_bounds,
         r"^<(std::option::)?Option<.*> as IntoIterator>::into_iter$": m_opt_into_iter,
         r" as Iterator>::flatten$": m_flatten,
@@ -116,6 +126,9 @@ def _common_models(smt, st):
 
 def _member(b, p):
     """membership of integer position p in a (C_bounds lo hi) term -> SMT formula, or None when not understood"""
+    if b.startswith("(C_clamp "):
+        inner = _member(split_sexpr_args(b)[0], p)
+        return None if inner is None else "(and %s (>= %s (pos NSSTART)) (< %s (pos NSEND)))" % (inner, p, p)
     if not b.startswith("(C_bounds "):
         return None
     lo, hi = split_sexpr_args(b)
@@ -174,17 +187,20 @@ def q_c08_get_range(bodies):
     except (ValueError, AssertionError, KeyError, IndexError, RecursionError) as e:
         return dict(name=name, property="C08", verdict="inconclusive", detail="%r" % e, functions=[body.name])
     RECORDS = "(addr (ref TBL) %s)" % ex.ksym(str(fields.index("records")))
-    ctx = ["(<= (pos NSSTART) (pos X))", "(< (pos X) (pos NSEND))", "(<= (pos NSSTART) (pos Y))", "(< (pos Y) (pos NSEND))"]
+    # the end points of a range come out of a peer's message: they need not lie inside the document (`anywhere`); the
+    # in-document case is asked separately so that a problem there is named as such
+    in_doc = ["(<= (pos NSSTART) (pos X))", "(< (pos X) (pos NSEND))", "(<= (pos NSSTART) (pos Y))", "(< (pos Y) (pos NSEND))"]
     smt.decls.append("(declare-const P Int)")
     problems, nq, ncases = [], 0, 0
-    for pc, ret, calls, env in paths:
+    for ctx, where in [(pth, w) for pth in paths for w in ((in_doc, "end points inside the document"), (["(< (pos NSSTART) (pos NSEND))"], "end points anywhere (a peer chooses them)"))]:
+        (pc, ret, calls, env), ctx, where = ctx, where[0], where[1]
         pcs = "(and true %s %s)" % (" ".join(pc), " ".join(ctx))
         nq += 1
         v, _ = solve(smt.script(pcs))
         if v == "unsat":
             continue
         ncases += 1
-        tag = "path=%s" % [c for c in pc][:4]
+        tag = "%s; path=%s" % (where, [c for c in pc][:4])
         if "(not tables_ok)" in pc:
             if not ret.startswith("(C_Err"):
                 problems.append(("a storage error is reported", "sat", tag))
@@ -232,8 +248,8 @@ def q_c08_get_range(bodies):
         verdict = "violated"
     problems.sort(key=lambda p: p[1] == "inconclusive")  # a confirmed problem names the check
     return dict(name=name, property="C08", verdict=verdict, detail="feasible paths=%d; problems: %s" % (ncases, problems[:4] or "none"),
-                functions=sorted(ex.inlined) + ["RecordsBounds::{new,namespace,from_start,to_end} (interval semantics decided by the Kani harnesses bounds_namespace_*), RecordsRange::with_bounds, Iterator::chain (modelled)"],
-                queries=nq, cases=ncases, witness="c08range",
+                functions=sorted(ex.inlined) + ["RecordsBounds::{new,namespace,from_start,to_end,clamp_to_namespace} (interval semantics decided by the Kani harnesses bounds_namespace_* / bounds_clamp_*), RecordsRange::with_bounds, Iterator::chain (modelled)"],
+                queries=nq, cases=ncases, witness="c08range,c08foreign",
                 check_message=(problems[0][0] if problems else "get_range meets the ordered-map definition"))
 
 
